@@ -31,6 +31,38 @@ type c08Case struct {
 	Recheck bool   `json:"recheck,omitempty"` // load, then the exported Check under another table
 	TableA  string `json:"table_a,omitempty"`
 	TableB  string `json:"table_b,omitempty"`
+	Before  string `json:"loaded_before,omitempty"` // a script loaded immediately before
+}
+
+// c08Strip returns the statements without calls of the named function (at any block depth).
+func c08Strip(stmts []*rt.Node, name string) []*rt.Node {
+	var out []*rt.Node
+	for _, st := range stmts {
+		if st == nil {
+			out = append(out, nil)
+			continue
+		}
+		if st.K == rt.KCall && st.S == name {
+			continue
+		}
+		c := *st
+		if st.K == rt.KBlock {
+			c.Kids = c08Strip(st.Kids, name)
+		} else if len(st.Kids) > 0 {
+			c.Kids = make([]*rt.Node, len(st.Kids))
+			for i, k := range st.Kids {
+				if k != nil && (k.K == rt.KBlock || k.K == rt.KIf || k.K == rt.KFor || k.K == rt.KForIn) {
+					if r := c08Strip([]*rt.Node{k}, name); len(r) == 1 {
+						c.Kids[i] = r[0]
+						continue
+					}
+				}
+				c.Kids[i] = k
+			}
+		}
+		out = append(out, &c)
+	}
+	return out
 }
 
 // argument kinds of the builtins' checkers (reference table, DESIGN.md appendix A)
@@ -675,6 +707,15 @@ func c08Run(w *run.Worker) {
 		} {
 			if w.Take() {
 				c08Try(w, full, "valid-pattern-scoping", prog, nil, fmt.Sprint(i))
+				// directly afterwards: the same script without its definitions — every grok in it now names
+				// patterns nobody has defined, whatever an earlier load has seen under those names
+				valid, _ := rt.PrintProg(prog, nil)
+				src, _ := rt.PrintProg(c08Strip(prog, "add_pattern"), nil)
+				w.Eval()
+				if err := full.load(src); err == nil {
+					w.Violate("C08:v1:offender-accepted:pattern-defined-only-in-a-script-loaded-before", fmt.Sprintf("a script using patterns that only the script loaded before it defined is accepted\n--- loaded before ---\n%s--- accepted ---\n%s", valid, src),
+						c08Case{Source: src, Lo: 0, Hi: len(src), Before: valid})
+				}
 			}
 		}
 	}
@@ -956,6 +997,9 @@ func c08Replay(raw json.RawMessage) (bool, string) {
 	l := newC08Loader(c.V2, c.Removed, c.NoCheck)
 	if c.NoCall != "" {
 		l.withoutCall(c.NoCall)
+	}
+	if c.Before != "" {
+		_ = l.load(c.Before)
 	}
 	err := l.load(c.Source)
 	if _, ok := err.(*drv.LoadPanic); ok {
